@@ -652,7 +652,9 @@ func cuts(s string, max int) [][]string {
 }
 
 func e2() {
-	texts := []string{"", "a", "héllo🌍", "l1\nl2"}
+	// the last two: what models really emit now and then - terminal escapes, control characters, DEL, a
+	// non-printable code point beyond the BMP, quotes and backslashes
+	texts := []string{"", "a", "héllo🌍", "l1\nl2", "\x1b[m\x00\x1f\x7f", "\"\\\U000e0001\u2028"}
 	big := `{"blob":"` + strings.Repeat("z", 4096) + `"}`
 	argSets := []string{`{}`, `{"a":{"b":[1,null,"é"]},"c":-0.5}`, big}
 	maxCalls := 2
